@@ -242,7 +242,10 @@ def run(ctx):
     res.rule("F-EMBED", "the embedded IR and version come from to_bytes of the stored IR")
     res.rule("WIRE", "serde writer = reader = definition for every IR type")
     res.rule("I-DIAG", "the duplicate-definition diagnostic is raised")
+    res.rule("F-REQUIRES", "the traversals that report the keys an IR requires (Apply::params over Composite::components) visit every component, so find_params of the embedded IR reports every key the interface declares")
     f_norm(F, res)
+    n = c06.t1(F, res, only={"params", "components"}, rule="F-REQUIRES")
+    res.floor("key-reporting traversal impls", n, 20)
     f_embed(F, res)
     c11.wire(F, res)
     i_diag(F, res)
